@@ -26,7 +26,7 @@ from harness.drivers import chan as dchan
 logging.getLogger("paramiko").addHandler(logging.NullHandler())   # "unknown extended_data type" goes nowhere
 
 CAP = 1 << 30          # numbers passed to TLC are rebased so that they stay below 2^31 (see rebase())
-SEND_OPS = ("send", "send_err", "send_ext", "sendall", "sendall_err")
+SEND_OPS = ("send", "send_err", "send_ext", "sendall_ext", "sendall", "sendall_err")
 RECV_OPS = ("recv", "recv_err", "recv_loop", "recv_err_loop")
 USERS = {"A": ("a1", "a2", "a3"), "B": ("b1", "b2", "b3")}
 DAEMONS = {"A": {"out": "dA_out", "err": "dA_err"}, "B": {"out": "dB_out", "err": "dB_err"}}
@@ -168,6 +168,19 @@ class World:
             elif kind == "send_err":
                 r = ch.send_stderr(b"e" * n)
                 out = "ret0" if r == 0 else "returned"
+            elif kind == "sendall_ext":   # the same peer moving n bytes of that type, message by message
+                from paramiko.message import Message
+                from paramiko.common import cMSG_CHANNEL_EXTENDED_DATA
+                left = n
+                while left:
+                    m = Message()
+                    m.add_byte(cMSG_CHANNEL_EXTENDED_DATA)
+                    m.add_int(ch.remote_chanid)
+                    m.add_int(op[2])
+                    r = ch._send(b"x" * left, m)
+                    if r == 0:
+                        raise socket.error("Socket is closed")
+                    left -= r
             elif kind == "send_ext":      # what a peer that uses another extended-data type would send
                 from paramiko.message import Message
                 from paramiko.common import cMSG_CHANNEL_EXTENDED_DATA
@@ -255,7 +268,7 @@ class World:
             op = self.cur_op.get(t.name)
             if op is None:           # (after the run every thread is dead; cur_op is only cleared by a normal end)
                 continue
-            if ex.budget_exhausted and op in ("sendall", "sendall_err"):
+            if ex.budget_exhausted and op in ("sendall", "sendall_err", "sendall_ext"):
                 snap["spinning"].append(t.name)
             elif t.name in blocked and op in SEND_OPS:
                 snap["waiting"].append({"th": t.name, "at": "send_wait"})
@@ -294,6 +307,18 @@ def holdback():
     the model whose behaviours are replayed step by step (spec -> code); the invariants judged are the same either way"""
     from paramiko.channel import Channel
     return hasattr(Channel, "_send_done")
+
+
+def eof_notifies():
+    """does Channel._send_eof wake writers parked in the window wait?  (selects the model variant whose behaviours are replayed)"""
+    import inspect
+    from paramiko.channel import Channel
+    return "notify" in inspect.getsource(Channel._send_eof)
+
+
+def gen_variant():
+    """constants of Channel_Gen that follow the structure of the tree under test"""
+    return {"HoldBack": holdback(), "Mut": "none" if eof_notifies() else "no_eof_notify"}
 
 
 def modules():
